@@ -309,11 +309,18 @@ class GraphWorld:
         if isinstance(obj, TTE):
             en = self._entry(key)
             if not en.exists:
-                # defaultdict(int).__getitem__ stores and returns 0
-                en.exists = True
-                en.is_int0 = True
-                self.effect(("tte_default_int", repr(key)), node)
-                return ZeroInt()
+                kind = self.cfg.get("tte_kind", "defaultdict(int)")
+                if kind == "defaultdict(int)":
+                    # defaultdict(int).__getitem__ stores and returns 0
+                    en.exists = True
+                    en.is_int0 = True
+                    self.effect(("tte_default_int", repr(key)), node)
+                    return ZeroInt()
+                if kind == "defaultdict(dict)":
+                    en.exists = True
+                    self.effect(("tte_default_dict", repr(key)), node)
+                    return TTEDict(en)
+                raise AbstractRaise("KeyError", node, detail="time_to_edge has no entry for %r" % (key,))
             if en.is_int0:
                 return ZeroInt()
             return TTEDict(en)
@@ -330,6 +337,10 @@ class GraphWorld:
             return Opaque("node attributes")
         if isinstance(obj, Snapshots):
             if not self.snap_contains(key, node):
+                if self.cfg.get("snap_kind", "dict") == "defaultdict(int)":
+                    # reading a missing counter of a defaultdict creates the key
+                    self._snap_record(key, "default_created", 0, node)
+                    return Opaque("counter")
                 raise AbstractRaise("KeyError", node, detail="read of a missing snapshot counter")
             return Opaque("counter")
         if isinstance(obj, Opaque):
@@ -462,6 +473,9 @@ class GraphWorld:
             if not (isinstance(op, ast.Add) and isinstance(rhs, Const) and isinstance(rhs.v, int)):
                 raise Unsupported(node, "snapshot counter update")
             if not self.snap_contains(key, node):
+                if self.cfg.get("snap_kind", "dict") == "defaultdict(int)":
+                    self._snap_record(key, "set_absent", rhs.v, node)
+                    return
                 raise AbstractRaise("KeyError", node, detail="+= on a missing snapshot counter")
             self._snap_record(key, "inc", rhs.v, node)
             return
@@ -533,8 +547,13 @@ class GraphWorld:
 
     def binop(self, ip, a, op, b, node):
         if isinstance(a, Opaque) and a.tag == "counter" and isinstance(b, Const):
+            if isinstance(op, (ast.Div, ast.FloorDiv)):
+                return Opaque("counter/%s" % b.v)
             return Opaque("counter")
         return None
+
+    def on_yield(self, ip, v, node):
+        self.__dict__.setdefault("yields", []).append(v)
 
     def compare(self, ip, a, sym, b, node):
         return None
@@ -572,6 +591,17 @@ class GraphWorld:
                 return Const(self.pair_exists(store, args[0].role, args[1].role))
             if name == "temporal_snapshots_ids" and not args:
                 return SnapIds()
+            if name == "add_node" and len(args) >= 1 and isinstance(args[0], NodeV):
+                # networkx add_node: creates the node (and its adjacency rows) when absent
+                role = args[0].role
+                if not self.node_exists(role):
+                    self.effect(("node_init", role, "absent"), node)
+                    self.node_created[role] = True
+                    for st in (("succ", "pred") if self.directed else ("adj",)):
+                        self.adj_inited.add((st, role))
+                elif kwargs:
+                    self.effect(("node_attr_update", role), node)
+                return NONE
             if name in self.methods and ip.depth < ip.max_depth:
                 fn = self.methods[name]
                 env = bind_args(fn, [SelfV()] + list(args), kwargs, ip, node)
@@ -593,11 +623,16 @@ class GraphWorld:
                 if en.is_int0:
                     return ZeroInt()
                 return args[1] if len(args) == 2 else NONE
-            if name == "setdefault" and len(args) == 2 and isinstance(args[1], DictObj) and not args[1].entries:
+            if name == "setdefault" and len(args) == 2 and isinstance(args[1], DictObj):
                 en = self._entry(args[0])
                 if not en.exists:
-                    en.exists = True
-                    self.effect(("tte_new_dict", repr(args[0]), []), node)
+                    own = set()
+                    for k in args[1].entries:
+                        o, op = self.ori(k, node)
+                        self._foreign_write(o, op, en, node)
+                        own.add((o, op))
+                    en.exists, en.own, en.touched = True, own, True
+                    self.effect(("tte_new_dict", repr(args[0]), sorted(own)), node)
                 if en.is_int0:
                     return ZeroInt()
                 return TTEDict(en)
